@@ -58,6 +58,15 @@ add("C01", "exploration", "DESIGN.md §2 C01",
     "CPython audit events stand for OS opens (no C extension opens files here); stat-only probes are covered by the "
     "two-world comparison only; trees contain no symlink leaving the root")
 
+add("C04", "exploration", "DESIGN.md §2 C04",
+    "Hypothesis-generated files (content kind x block-boundary sizes x hostile names x extensions, real directory and "
+    "ZIP member, both handler lists) fetched through 12 protocol forms; round-trip oracle body == file bytes, "
+    "Gopher+ length, HEAD == GET headers, reference MIME model, WAP text inverse transform",
+    "5k (quick) / 100k (thorough) files, each through every document form incl. TLS variants; sizes sit on both sides "
+    "of every multiple of the 4096-byte copy block up to 5 blocks (1 MiB in thorough). Sampled exploration.",
+    "stdlib mimetypes.MimeTypes (private instance) is the trusted reading of the configured tables; decompressor "
+    "binaries zcat/bzcat are trusted; TLS is simulated in-process (no record layer)")
+
 NOT_APPLICABLE = []
 
 
